@@ -139,3 +139,39 @@ void h_MatrixInversion_pivot(void)
       VC_CHECK("inverse of a well-conditioned matrix with a zero leading entry is finite (pivoting required)", inv->data[i][j] == inv->data[i][j] && inv->data[i][j] - inv->data[i][j] == 0.0);
   VC_REACH();
 }
+
+/* Gauss-Jordan inverse on exact instances: scaled permutation matrices (one non-zero per row and column, each +-1, +-2 or
+ * +-1/2, +-4), the "permutation matrices / zero leading minors" class of the property.  Every elimination step is exact, so
+ * any correct algorithm returns exactly inv[j][i] = 1 / m[i][j] on the pattern and 0 elsewhere, i.e. M * inv = I exactly. */
+#ifndef VC_DIM
+#define VC_DIM 3
+#endif
+#ifndef VC_PERMIDX
+#define VC_PERMIDX 0
+#endif
+void h_MatrixInversion_permutation(void)
+{
+  static const unsigned char P3[6][3] = {{0,1,2},{0,2,1},{1,0,2},{1,2,0},{2,0,1},{2,1,0}};
+  matrix *m, *inv;
+  double s[4];
+  size_t col[4];
+  NewMatrix(&m, VC_DIM, VC_DIM); initMatrix(&inv);
+  for(size_t i = 0; i < VC_DIM; i++) {
+    col[i] = (VC_DIM == 3) ? P3[VC_PERMIDX][i] : (VC_DIM == 2 ? (VC_PERMIDX ? 1 - i : i) : 0);
+    uint64_t e = vc_in_u64(), neg = vc_in_u64();
+    VC_ASSUME(e <= 3 && neg <= 1);
+    double v = (e == 0) ? 0.5 : (e == 1) ? 1.0 : (e == 2) ? 2.0 : 4.0;
+    s[i] = neg ? -v : v;
+    m->data[i][col[i]] = s[i];
+  }
+  MatrixInversion(m, inv);
+  VC_CHECK("inverse has the input's shape", inv->row == VC_DIM && inv->col == VC_DIM);
+  for(size_t i = 0; i < VC_DIM; i++)
+    for(size_t j = 0; j < VC_DIM; j++) {
+      /* (M * inv)[i][j] = s[i] * inv[col[i]][j] */
+      VC_CHECK("M * M^-1 == I exactly for a scaled permutation matrix (row exchanges required)", s[i] * inv->data[col[i]][j] == (i == j ? 1.0 : 0.0));
+    }
+  for(size_t i = 0; i < VC_DIM; i++)
+    VC_CHECK("MatrixInversion does not modify its input", m->data[i][col[i]] == s[i]);
+  VC_REACH();
+}
